@@ -4,6 +4,7 @@ import (
 	"context"
 	"encoding/json"
 	"fmt"
+	opacaps "github.com/open-policy-agent/opa/capabilities"
 	"os"
 	"path/filepath"
 	"sort"
@@ -28,7 +29,6 @@ var worldTitles = map[string]bool{
 	"unresolved-import": true, "no-defined-entrypoint": true,
 	"rule-x": true, "rule-y": true, "agg-x": true,
 }
-
 
 // real aggregate rules whose violations are not predicted by the model but whose aggregate KEYS
 // decide whether the aggregate report runs at all (len(allAggregates) > 0)
@@ -68,8 +68,8 @@ type kCase struct {
 	Export     bool                          `json:"export"`
 	Overridden map[string][]report.Aggregate `json:"overridden"`
 	NoCustom   bool                          `json:"noCustom"`
-	Boom       bool                          `json:"boom"`          // also load the failing custom rule
-	SelectWait int                           `json:"selectWaitMs"`  // hold lintWithRegoRules before its final select
+	Boom       bool                          `json:"boom"`         // also load the failing custom rule
+	SelectWait int                           `json:"selectWaitMs"` // hold lintWithRegoRules before its final select
 	Procs      int                           `json:"procs"`
 }
 
@@ -404,6 +404,30 @@ func init() {
 		var c kCase
 		if err := decodeCase(req, &c); err != nil {
 			return nil, err
+		}
+		// target capabilities given as a FILE: the original capabilities document of an OPA version (bytes from
+		// OPA's own embedded directory) is written to a temporary file and named in capabilities.from.file
+		if v := str(req, "capsFileOfVersion"); v != "" {
+			bs, err := opacaps.FS.ReadFile(v + ".json")
+			if err != nil {
+				return map[string]any{"error": "setup: " + err.Error()}, nil
+			}
+			f, err := os.CreateTemp("", "verif-caps-*.json")
+			if err != nil {
+				return nil, err
+			}
+			defer os.Remove(f.Name())
+			_, _ = f.Write(bs)
+			_ = f.Close()
+			var u map[string]any
+			if len(c.User) > 0 && string(c.User) != "null" {
+				_ = json.Unmarshal(c.User, &u)
+			}
+			if u == nil {
+				u = map[string]any{}
+			}
+			u["capabilities"] = map[string]any{"from": map[string]any{"file": f.Name()}}
+			c.User, _ = json.Marshal(u)
 		}
 		l, err := buildLinter(&c)
 		if err != nil {
